@@ -138,6 +138,11 @@ func bundleFile(c *core.Ctx) ([]byte, string) {
 func extraAttrs(c *core.Ctx, pub ed25519.PublicKey) integrityblock.SignatureAttributesMap {
 	names := []string{"a", "zz", "ed25519PublicKeyX", "e", "alongerattributenamethatisover23bytes", "k1", "cl\u00e9", "\u7f72\u540d", "x\U0001F4E6"}
 	n := c.Int("attrs.n", 0, 4)
+	many := 0
+	if c.Chance("attrs.many", 1, 15) {
+		// attribute maps around the 23/24-entry CBOR head-size step (counting the public key)
+		many = c.PickInt("attrs.manyN", 21, 22, 23, 24)
+	}
 	perm := c.Perm("attrs.perm", len(names))
 	type kv struct {
 		k string
@@ -157,6 +162,9 @@ func extraAttrs(c *core.Ctx, pub ed25519.PublicKey) integrityblock.SignatureAttr
 		}
 		used[name] = true
 		kvs = append(kvs, kv{name, c.Bytes("attrs.val", 0, 30)})
+	}
+	for i := 0; i < many; i++ {
+		kvs = append(kvs, kv{fmt.Sprintf("m%02d", i), []byte{byte(i)}})
 	}
 	// drawn insertion order (plus insert/delete noise to vary the map's bucket layout)
 	m := integrityblock.SignatureAttributesMap{}
@@ -254,6 +262,9 @@ func TestHistory(t *testing.T) {
 				targets = append(targets, tg)
 			}
 			k := c.PickInt("signings", 1, 2, 3, 4, 4, 6, 8) * nb
+			if c.Chance("signings.many", 1, 40) {
+				k = c.PickInt("signings.manyN", 23, 24, 25) // the stack is a CBOR array: head-size step at 24
+			}
 			good := 0
 			type kept struct{ got, want []byte }
 			var earlierBlocks []kept
